@@ -531,3 +531,11 @@ Proof.
   unfold same_entries. rewrite !andb_true_iff, !forallb_forall, Nat.eqb_eq. intros [[H1 H2] H3]. split; [|exact H3].
   intro e. split; intro H; [apply mem_entry_iff; now apply H1|apply mem_entry_iff; now apply H2].
 Qed.
+
+Lemma default_table_both : default_all_valid = true /\ wf default_table.
+Proof. split; [exact default_valid|exact default_wf]. Qed.
+
+Lemma error_order_both :
+  (forall t P Sp Nm, snd (op_call t P Sp Nm) = ROk <-> applicable_errors t P Sp Nm = []) /\
+  (forall t P Sp Nm e l, applicable_errors t P Sp Nm = e :: l -> op_call t P Sp Nm = (t, RErr e)).
+Proof. split; [exact accepted_iff_no_error|exact first_error_reported]. Qed.
